@@ -57,16 +57,19 @@ def run(ctx):
 
     # ---- history part: whole request histories in the real server; every {pres what=acs} notice a session receives inside a
     # group topic, applied to the subject's pre-step permissions, must give the permissions the live topic holds after the step
-    users, sess, topics = world.population(3, 2)
-    kinds = ["NewGrp", "Sub", "Leave", "SetSelf", "SetOther", "DelSub", "Reload"]
+    users, sess, topics = world.population(3, 2, ("g1", "p12"))
+    kinds = ["NewGrp", "Sub", "Leave", "SetSelf", "SetOther", "DelSub", "Reload", "P2P"]
     cw = world.mc_consts(users, sess, topics, world.DEV_BUILT, ["-", "N", "JR", "JRA", "JRASO", "JRWPASDO"],
                          ["-", "N", "JR", "JRAS", "JRASO", "JRWPASDO"], kinds, ["C05"])
     behs, _ = world.simulate(ctx, "SimC05", cw, 600 if thorough else 100, 16 if thorough else 14, ctx.seed)
+    # goal-directed p2p histories (one side unsubscribes and comes back while the topic stays loaded / after a reload ...)
+    gb = world.goal_behaviours(ctx, users, sess, topics, names=list(world.P2P_GOALS))
+    behs = [b for _, b in sorted(gb.items())] + behs
     bj = world.behaviours_json(behs, users, sess, topics)
     trace, _ = world.replay(ctx, bj)
     r3, recs, wfails, wdivs = world.check_traces(ctx, trace, cw, ["C05"])
     nw = world.report(ctx, recs, wfails, wdivs, "C05")
-    nacs = sum(1 for r in recs for fr in r["frames"].values() for f in fr if f.get("k") == "pres" and f.get("what") == "acs" and f.get("topic") == "g1")
+    nacs = sum(1 for r in recs for fr in r["frames"].values() for f in fr if f.get("k") == "pres" and f.get("what") == "acs" and f.get("topic") in ("g1", "p12"))
     vlib.log("history part: %d behaviours, %d steps, %d acs notices followed, %d follower mismatches, %d divergences" % (len(bj), len(recs), nacs, nw, len(wdivs)))
     ctx.cov["history_part"] = {"behaviours": len(bj), "steps": len(recs), "acs_notices_followed": nacs}
 
